@@ -105,6 +105,9 @@ Burst(e, L1, L2) == act' = "Burst" /\ Apply(e :> OpReg(L2)) /\ Log(<<"Burst", e,
 \* a successful discovery of e chased by a rejected list for e before the background merge of the first has
 \* run: the rejected update changes nothing, so the listing L still counts -- also in the unified catalogue
 Chase(e, L, B) == HasNameless(B) /\ act' = "Chase" /\ Apply(e :> OpReg(L)) /\ Log(<<"Chase", e, L, B>>)
+\* two successive successful discoveries of e whose background merges run in the opposite order: still the
+\* second listing counts
+Swap(e, L1, L2) == act' = "Swap" /\ Apply(e :> OpReg(L2)) /\ Log(<<"Swap", e, L1, L2>>)
 \* concurrent operations on distinct endpoints; T = [D -> scenario token]
 TokOp(t) == IF t[1] = "Reg" THEN OpReg(t[3]) ELSE IF t[1] = "Rm" THEN OpRm ELSE OpNone("Fail")
 Par(T) == /\ act' = "Par" /\ Apply([e \in DOMAIN T |-> TokOp(T[e])])
@@ -139,6 +142,7 @@ ParOf(D) == LET a == CHOOSE x \in D : TRUE
                          Par((a :> ta) @@ (b :> tb) @@ (c :> tc))
 Concurrent == \/ \E e \in Eps : \E L1, L2 \in Listings : L1 # L2 /\ Burst(e, L1, L2)
               \/ \E e \in Eps : \E L \in Listings : \E B \in BadLists : Chase(e, L, B)
+              \/ \E e \in Eps : \E L1, L2 \in Listings : L1 # L2 /\ Swap(e, L1, L2)
               \/ \E D \in SUBSET Eps : Cardinality(D) \in {2, 3} /\ ParOf(D)
 Env  == Single \/ (WithConcurrency /\ Concurrent)
 Next == (Len(scn.ops) < MaxLen /\ Env) \/ \E e \in Eps : Merge(e)
@@ -160,7 +164,7 @@ Inv_C10_count == \A e \in Eps : Cardinality(last[e]) <= lastN[e]
 \* a rejected or failed update leaves the previous attribution intact
 RejectedKeeps == [][act' \in {"Bad", "Fail"} => UNCHANGED <<last, lastN, perEp, idx, uni>>]_vars
 \* only an accepted listing or a removal ever changes an attribution (merges and failures never do)
-OnlyUpdatesChange == [][(last' # last \/ perEp' # perEp \/ idx' # idx) => act' \in {"Reg", "Direct", "Rm", "Burst", "Par", "Chase"}]_vars
+OnlyUpdatesChange == [][(last' # last \/ perEp' # perEp \/ idx' # idx) => act' \in {"Reg", "Direct", "Rm", "Burst", "Par", "Chase", "Swap"}]_vars
 \* what is attributed after a successful listing passed the endpoint's filter
 OnlyFiltered == \A e \in Eps : \A m \in last[e] : Passes(m, flt[e].inc, flt[e].exc)
 
